@@ -63,27 +63,31 @@ def gen_float(seed, quick, prefixes):
     vals = []      # (tag, triple)
     T52, T53 = 1 << 52, 1 << 53
 
-    def around(tag, t):
+    def around(tag, t, heavy=False):
         vals.append((tag + ":tie", t))
-        for j in (r.choice([1, 3, 17]), r.choice([25, 40, 60])):
+        for j in ((r.choice([1, 3, 17, 25, 40, 60]),) if heavy else (r.choice([1, 3, 17]), r.choice([25, 40, 60]))):
             d = of_int(1, t[2] - j)
             vals.append((tag + ":above", dadd(t, d)))
             vals.append((tag + ":below", dadd(t, neg(d))))
 
-    # midpoints of neighbouring doubles
-    es = [-1074] * 4 + [-1073, -1070, -1060, -1030, -1023, -1022, 971, 970, 960] + \
-         [r.randint(-1021, -900) for _ in range(3)] + [r.randint(-100, 100) for _ in range(14 if quick else 200)] + \
-         [r.randint(900, 969) for _ in range(3)]
-    for E in es:
+    # midpoints of neighbouring doubles.  Exponents far from 0 need 300-770 digit coefficients (Coq divides ~3500-bit numbers:
+    # about 0.5 s per group), so the quick tier takes few of them: the subnormal range, its border, the overflow threshold.
+    nh = 1 if quick else 12
+    heavy = [-1074] + r.sample([-1073, -1070, -1060, -1030, -1023, -1022], 2 if quick else 6) + [971] + \
+            [r.randint(-1021, -900) for _ in range(nh)] + [r.randint(900, 970) for _ in range(nh)]
+    light = [r.randint(-100, 100) for _ in range(16 if quick else 200)]
+    for E in heavy + light:
         if E == -1074:
-            ms = [0, 1, 2, 3, r.randint(4, T52 - 2), T52 - 1, T52, r.randint(T52, T53 - 1)]
-            ms = r.sample(ms, 4) + [0, 1]
+            ms = [0, 1, r.choice([2, 3]), r.randint(4, T52 - 2), T52 - 1] + ([T52, r.randint(T52, T53 - 1)] if not quick else [])
+        elif E == 971:
+            ms = [T53 - 1, r.randint(T52, T53 - 2)]
+        elif E in heavy:
+            ms = [r.choice([T52, T52 + 1, T53 - 1, r.randint(T52, T53 - 1)])]
         else:
-            ms = [T52, T52 + 1, T53 - 1, T53 - 2, r.randint(T52, T53 - 1), r.randint(T52, T53 - 1)]
-            ms = r.sample(ms, 2) + ([T53 - 1] if E == 971 else [])
+            ms = r.sample([T52, T52 + 1, T53 - 1, T53 - 2, r.randint(T52, T53 - 1), r.randint(T52, T53 - 1)], 2)
         for M in ms:
             tag = "subnormal" if E == -1074 and M < T52 else ("overflow" if (E == 971 and M == T53 - 1) else "midpoint")
-            around(tag, bin_triple(2 * M + 1, E - 1))
+            around(tag, bin_triple(2 * M + 1, E - 1), heavy=E in heavy)
     # 2^53 + 1 patterns: integers that are exact ties of the integer grid above 2^53
     for n in [T53 + 1, T53 + 3, (T53 + 1) * 2, (T53 + 1) * 1024, (1 << 54) + 2, (1 << 54) + 6, (T53 + 1) * (1 << 70), T53 - 1, T53, 3 * T52 + 1]:
         around("int53", (0, n, 0))
@@ -103,9 +107,10 @@ def gen_float(seed, quick, prefixes):
     for tag, t in vals:
         if r.random() < 0.5:
             t = neg(t)
-        groups.append((tag, reps(r, t, prefixes)))
+        groups.append((tag, reps(r, t, prefixes, 2 if len(str(t[1])) > 200 else 3)))
     # the representations named in the task text: 150e-2 * KILO, 1.5 * KILO, 1500 * UNIT
     groups.append(("natural", [((0, 150, -2), 3), ((0, 15, -1), 3), ((0, 1500, 0), 0), ((0, 15, 26), -24)]))
+    r.shuffle(groups)      # spread the expensive (long-coefficient) groups over the Coq chunks
     return groups
 
 
@@ -116,7 +121,7 @@ def run_float(run, seed, quick, prefixes, only=None):
     cases = ["([" + "; ".join(c_pfx(n, p) for n, p in g) + "], [" + "; ".join(c_opt_fl(o) for o in out) + "])"
              for (_, g), out in zip(groups, outs)]
     bad = core.coq_eval_cases("C14", "xfloat" if only is None else "xfloat_replay", IMPORTS, "float_case", cases,
-                              "run_cases chk_float_x", chunk=60)
+                              "run_cases chk_float_x", chunk=30)
     tags = {}
     for tag, _ in groups:
         tags[tag.split(":")[0]] = tags.get(tag.split(":")[0], 0) + 1
